@@ -56,7 +56,8 @@ pub fn largest_liquidity(p: u128, pl: u128, pu: u128, ma: u64, mb: u64) -> BigUi
     lo
 }
 
-pub fn check_fn(c: &FnCase, l: &mut Local) -> Result<(), String> {
+/// the (tick, sqrt price) pool state a case stands for
+pub fn resolve_state(c: &FnCase) -> Option<(i32, u128)> {
     let (lo, hi) = (c.lower, c.upper);
     let (pl, pu) = (sqrt_price_from_tick_index(lo), sqrt_price_from_tick_index(hi));
     let within = |t: i32| -> u128 {
@@ -82,8 +83,15 @@ pub fn check_fn(c: &FnCase, l: &mut Local) -> Result<(), String> {
         }
     };
     if tick < MIN_TICK {
-        return Ok(());
+        return None;
     }
+    Some((tick, p))
+}
+
+pub fn check_fn(c: &FnCase, l: &mut Local) -> Result<(), String> {
+    let (lo, hi) = (c.lower, c.upper);
+    let (pl, pu) = (sqrt_price_from_tick_index(lo), sqrt_price_from_tick_index(hi));
+    let Some((tick, p)) = resolve_state(c) else { return Ok(()) };
     let shifted = matches!(c.state % 9, 2 | 3);
     let liq = c.liquidity;
     let mut pos = Position::default();
@@ -105,9 +113,18 @@ pub fn check_fn(c: &FnCase, l: &mut Local) -> Result<(), String> {
             }
             let Ok((da, db)) = ra else {
                 l.count("delta_err");
+                let (ea, eb) = position_amounts(liq, p, pl, pu, add);
+                let edge = BigUint::one() << 64u32;
+                if ea == edge || eb == edge {
+                    l.count("delta_err_exact_amount_rounds_to_2^64");
+                    l.nontrivial(hash_of(&(c.tick_spacing, lo, hi, tick, p, liq, add)));
+                }
                 continue;
             };
             let (ea, eb) = position_amounts(liq, p, pl, pu, add);
+            if da >= u64::MAX - 1 || db >= u64::MAX - 1 {
+                l.count("delta_ok_amount_at_u64_max");
+            }
             if BigUint::from(da) != ea || BigUint::from(db) != eb {
                 return Err(format!(
                     "{} of L={liq} over [{lo},{hi}] at price {p} (tick {tick}): program ({da}, {db}), exact amounts rounded {} give ({ea}, {eb})",
@@ -164,14 +181,23 @@ fn fn_case() -> BoxedStrategy<FnCase> {
         .prop_flat_map(|ts| {
             let tsi = ts as i32;
             let maxk = MAX_TICK / tsi;
-            (Just(ts), -maxk..=maxk, prop_oneof![2 => 1i32..=200, 1 => 1i32..=(2 * maxk)], 0u8..9, any::<u128>(), gen::bits_u128(110), gen::bits_u64(64), gen::bits_u64(64))
+            // liquidity: by magnitude, or the inverse image of a token amount on a boundary of the result type
+            let target = prop_oneof![3 => Just(None), 1 => (any::<bool>(), 0usize..AMOUNT_TARGETS.len(), any::<u32>()).prop_map(Some)];
+            (Just(ts), -maxk..=maxk, prop_oneof![2 => 1i32..=200, 1 => 1i32..=(2 * maxk)], 0u8..9, any::<u128>(), gen::bits_u128(110), gen::bits_u64(64), gen::bits_u64(64), target)
         })
-        .prop_map(|(ts, lo_k, w, state, price_seed, liquidity, max_a, max_b)| {
+        .prop_map(|(ts, lo_k, w, state, price_seed, liquidity, max_a, max_b, target)| {
             let tsi = ts as i32;
             let maxk = MAX_TICK / tsi;
             let hi_k = (lo_k.saturating_add(w)).min(maxk);
             let lo_k = if hi_k == lo_k { lo_k - 1 } else { lo_k };
-            FnCase { tick_spacing: ts, lower: lo_k * tsi, upper: hi_k * tsi, state, price_seed, liquidity, max_a, max_b }
+            let mut c = FnCase { tick_spacing: ts, lower: lo_k * tsi, upper: hi_k * tsi, state, price_seed, liquidity, max_a, max_b };
+            if let (Some((token_a, ti, frac)), Some((_, p))) = (target, resolve_state(&c)) {
+                let (pl, pu) = (sqrt_price_from_tick_index(c.lower), sqrt_price_from_tick_index(c.upper));
+                if let Some(lq) = liquidity_for_amount(p, pl, pu, token_a, AMOUNT_TARGETS[ti], frac) {
+                    c.liquidity = lq;
+                }
+            }
+            c
         })
         .boxed()
 }
@@ -336,7 +362,7 @@ pub fn def() -> CheckDef {
     CheckDef {
         id: "C08",
         rule: "function level: generated (tick spacing, usable lower<upper, state in {on lower bound, on upper bound, shifted at lower, shifted at upper, inside, anywhere}, \
-               +-L of any magnitude up to 2^110, token maxima of any magnitude) on BOTH implementations (Pinocchio through H1): amounts equal the price-based exact \
+               +-L of any magnitude up to 2^110 or (one in four) the exact inverse image of a token amount on a boundary of the u64 result type, token maxima of any magnitude) on BOTH implementations (Pinocchio through H1): amounts equal the price-based exact \
                amounts (A over [clamp(p),pu], B over [pl,clamp(p)]) rounded up for +L and down for -L, one-sidedness, round trip returns <= paid and loses <= 1 per \
                token, estimate == largest liquidity whose cost fits both maxima (bisection on BigUint).  Instruction level on states reached by generated \
                histories: increase with token_max = cost succeeds and moves exactly the cost, cost-1 fails; decrease with token_min = return succeeds, return+1 \
